@@ -13,7 +13,16 @@ EPIPE produced by a peer that shuts down the read side of its socket); the model
 run2f, proved never to accept a wrong digest whatever fails) gets the observed fate of every
 send call as its oracle, and the monitor "accepted => the digest received for the own
 challenge was right" is judged from the recorded calls alone (it needs no model, so it still
-runs when the translator refuses a changed function)."""
+runs when the translator refuses a changed function).
+Key normalisation (audit follow-up): "same key" in the theorems is `norm B h kl = norm B h kc`
+(Lib/AuthKey.v, RFC 2104 key preparation).  Every run checks on the real code (a) H1: the real
+hmac gives the same digest for a key and for the prepared key; (b) Coq's norm (hash handed over
+as a table computed by hashlib) equals what hmac.py prepares; (c) whether two real keys
+authenticate each other (real Listener.accept x Client) equals `norm kl = norm kc` evaluated in
+Coq -- on the key pairs of all honest cases plus a dedicated boundary family.
+Replay across sessions: a real handshake is recorded and one party's messages are played at a
+fresh real endpoint of the other role, with os.urandom fresh or repeating; both sessions are
+compared with the model (theorems C18_replay_across_sessions_*)."""
 import hashlib
 import hmac
 import json
@@ -30,7 +39,14 @@ MANIFEST = dict(
          'adaptive peer strategy): the handshake code regenerated from connection.py on this run equals the model; '
          'same non-empty key => listener and client both return a connection; both return IFF the two digest '
          'equations hold, otherwise BOTH raise AuthenticationError (with the exact bytes on the wire and which side '
-         'detects first); under an explicit no-collision hypothesis this is IFF same key; an honest side returns only '
+         'detects first); with norm = RFC 2104 key preparation (hash if longer than the block, NUL-pad to the block; hash '
+         'abstract) and the two explicit hypotheses H1 "mac k m = mac (norm k) m" and H2 "distinct normalised keys do not '
+         'collide on the challenge used": both return IFF norm kl = norm kc, and IFF kl = kc for keys within the block '
+         'without trailing NUL; under H1 ALONE keys with equal norm (key / key+NULs, long key / its hash) authenticate each '
+         'other, for every such MAC (the known finding as a theorem); replay across sessions (os.urandom a stream indexed '
+         'by session): a recorded session played at a fresh listener or client is accepted IFF the digests of the two '
+         'challenges coincide, hence accepted if the challenge repeats and, when the MAC separates the two challenges, IFF '
+         'it repeats; a resend-only attacker needs mac(key, new challenge) among the recorded messages; an honest side returns only '
          'if the peer sent exactly mac(key, fresh challenge) (replayed/truncated/foreign digests refused); messages '
          'over 256 bytes, a missing CHALLENGE prefix, any verdict but WELCOME are rejected; a non-bytes key raises '
          'TypeError and no message is built from it; CHANNEL FAULTS: for every oracle deciding per send_bytes call '
@@ -41,11 +57,16 @@ MANIFEST = dict(
          'answer_challenge with the model on key pairs (equal, one bit apart, prefixes, NUL-padded, long) and scripted '
          'hostile peers, and the same under injected send/recv failures and real EPIPE (peer shut down its read side); '
          'property monitors on every implementation trace, incl. accepted => right digest received, from the recorded '
-         'calls alone.',
+         'calls alone. Key normalisation: real hmac satisfies H1 on sampled keys, Coq norm = hmac.py key preparation, '
+         'real acceptance of key pairs = equality of Coq norms; real two-session replays (fresh / repeated os.urandom) '
+         'against the model.',
     note='All theorems Closed under the global context. Trusted: Coq kernel; translate/kernels/auth.py (AST -> process '
          'terms); the harness recorder/starvation detector; message framing (C13) abstracted to whole messages; '
-         'HMAC strength and os.urandom freshness are NOT proved (the generator only checks the challenge is '
-         'os.urandom(MESSAGE_LENGTH), the driver that two real challenges differ); asserts assumed enabled (no -O). '
+         'HMAC strength is NOT proved: it enters as hypothesis H2 (no key collisions between distinct normalised keys on '
+         'the challenge used) of C18_iff_same_normalised_key / C18_iff_same_key, and as "mac key c_i = mac key c_j -> '
+         'c_i = c_j" in the replay theorems; os.urandom freshness is NOT proved: the replay theorems state exactly what '
+         'happens when it fails (the generator checks the challenge is os.urandom(MESSAGE_LENGTH), the driver that real '
+         'challenges differ and that a real replay is refused); asserts assumed enabled (no -O). '
          'Known exception to the literal "iff same key": keys that HMAC itself identifies (trailing NUL padding up to '
          'the block size, long key vs its digest) -- reported as C18:hmac-equivalent-keys-accepted.',
     technique='Coq proof over translator-regenerated process terms + differential correspondence + trace monitors',
@@ -56,6 +77,11 @@ HEADER = '''From Coq Require Import ZArith List Bool Uint63.
 From BV Require Import Lib.Cases Lib.AuthBase Lib.AuthHex Model.Auth.
 Import ListNotations. Open Scope Z_scope.
 Definition check_case := Auth.check_case.'''
+
+HEADER_NORM = '''From Coq Require Import ZArith List Bool Uint63.
+From BV Require Import Lib.Cases Lib.AuthBase Lib.AuthKey Lib.AuthHex Model.Auth.
+Import ListNotations. Open Scope Z_scope.
+Definition check_case := Auth.check_norm_case.'''
 
 CHALLENGE, WELCOME, FAILURE = b'#CHALLENGE#', b'#WELCOME#', b'#FAILURE#'
 EXN = ('AuthenticationError', 'AssertionError', 'OSError', 'TypeError',
@@ -342,6 +368,101 @@ def accepted_right_digest(key, tr, dm):
     return None
 
 
+
+# ------------------------------------------------------------------ key normalisation, replay
+def nz_key(rng, n):
+    """n random bytes, the last one not NUL"""
+    k = rbytes(rng, n)
+    return k[:-1] + bytes([k[-1] or 1]) if k else k
+
+
+def gen_norm_cases(rng, dm):
+    """honest listener x client on key pairs around the boundaries of HMAC key preparation"""
+    bs, ds = hashlib.new(dm).block_size, hashlib.new(dm).digest_size
+    out = []
+
+    def add(cls, kl, kc, swap=False):
+        if swap and kc:
+            kl, kc = kc, kl
+        out.append(dict(kind='honest', transport='pipe', kl=kb(kl), kc=kb(kc),
+                        cl=challenge(rng).hex(), cc=challenge(rng).hex(), cls='norm/' + cls))
+    # key vs key + j NULs: same prepared key while it fits the block, hashed once it does not
+    for i, (n, j) in enumerate(((1, 1), (1, bs - 1), (5, 3), (16, 1), (bs - 1, 1), (bs - 2, 2), (20, bs - 20))):
+        k = nz_key(rng, n)
+        add('nul-pad-within-block', k, k + bytes(j), swap=i % 2)
+    for i, (n, j) in enumerate(((bs, 1), (bs - 1, 2), (bs, 3), (1, bs))):
+        k = nz_key(rng, n)
+        add('nul-pad-crosses-block', k, k + bytes(j), swap=i % 2)
+    for i, n in enumerate((bs + 1, 100, 200)):
+        k = nz_key(rng, n)
+        add('long-key-plus-nul', k, k + b'\0', swap=i % 2)
+        hk = hashlib.new(dm, k).digest()
+        add('long-vs-its-digest', k, hk, swap=i % 2)
+        add('long-vs-its-digest-nul-padded', k, hk + bytes(rng.choice([1, bs - ds])), swap=(i + 1) % 2)
+        add('long-vs-its-digest-padded-beyond-block', k, hk + bytes(bs - ds + 1))
+        add('long-vs-its-digest-one-bit', k, flip_bit(rng, hk))
+    # keys made of NULs only, and the empty client key (Client(authkey=b'') does authenticate)
+    add('all-nul', b'\0', b'\0\0')
+    add('all-nul', bytes(bs), b'\0')
+    add('all-nul-beyond-block', bytes(bs + 1), b'\0')
+    add('nul-vs-empty-client-key', b'\0', b'')
+    add('nul-vs-empty-client-key', bytes(bs), b'')
+    add('nul-vs-empty-client-key-beyond-block', bytes(bs + 1), b'')
+    add('nonzero-vs-empty-client-key', b'\x01', b'')
+    # interior NULs are significant
+    a = nz_key(rng, 4)
+    add('interior-nul', a + b'\0' + a, a + b'\0' + a + b'\0')
+    add('interior-nul-differs', a + b'\0' + a, a + a + b'\0')
+    # equal keys / one bit apart over the length range 1..200
+    for n in (1, 15, 16, 17, bs - 1, bs, bs + 1, 128, 200):
+        k = nz_key(rng, n)
+        add('equal-%s' % ('long' if n > bs else 'short'), k, k)
+        add('one-bit-%s' % ('long' if n > bs else 'short'), k, flip_bit(rng, k))
+    return out
+
+
+def gen_norm_keys(rng, dm):
+    """single keys (no handshake): lengths 0..200, with and without trailing NULs"""
+    bs = hashlib.new(dm).block_size
+    keys = [b'', b'\0', bytes(bs), bytes(bs + 1)]
+    for n in (1, 2, 15, 16, 17, 31, bs - 1, bs, bs + 1, bs + 2, 100, 127, 128, 129, 199, 200):
+        k = nz_key(rng, n)
+        keys += [k, k[:-1] + b'\0', k + b'\0\0']
+    return keys
+
+
+def gen_replay_cases(rng):
+    """two sessions: a recorded real handshake, then one party's messages played at a fresh real endpoint
+    of the other role, whose os.urandom is fresh / repeats / is one bit off / is the other party's old challenge"""
+    out = []
+    for kind in ('replayL', 'replayC'):
+        for n in (1, 16, 70):
+            for variant in ('fresh', 'repeats', 'one-bit', 'other-partys-challenge'):
+                c1, cc1 = rbytes(rng, 20), rbytes(rng, 20)
+                own, other = (c1, cc1) if kind == 'replayL' else (cc1, c1)
+                c2 = dict(fresh=rbytes(rng, 20), repeats=own, other=other).get(variant.split('-')[0]) \
+                    or flip_bit(rng, own)
+                out.append(dict(kind=kind, key=kb(nz_key(rng, n)), c1=c1.hex(), cc1=cc1.hex(), c2=c2.hex(),
+                                cls='replay/%s/%s' % (kind[-1], variant)))
+    return out
+
+
+def norm_to_coq(kl, kc, acc, facts):
+    """one Auth.norm_case: block size, hash table (keys longer than the block), the two keys, what hmac.py
+    prepares for them, whether the real endpoints accepted each other (None: not run)"""
+    names, lets = {}, ''
+    for k in (kl, kc):
+        if k.hex() not in names:
+            names[k.hex()] = 'k%d_' % len(names)
+            lets += 'let %s := %s in ' % (names[k.hex()], cbytes(k.hex()))
+    fl, fc = facts[kl], facts[kc]
+    table = [(names[k.hex()], cbytes(facts[k]['hk'])) for k in dict.fromkeys((kl, kc)) if len(k) > facts[k]['block']]
+    return '(%s((%s, %s, (%s, %s), (%s, %s), %s) : Auth.norm_case))' % (
+        lets, cz(fl['block']), clist(table, lambda e: '(%s, %s)' % e), names[kl.hex()], names[kc.hex()],
+        cbytes(fl['pynorm']), cbytes(fc['pynorm']),
+        'None' if acc is None else '(Some %s)' % core.cbool(acc))
+
+
 # ------------------------------------------------------------------ rendering
 def cbytes(h):
     b = bytes.fromhex(h)
@@ -478,6 +599,14 @@ def monitors(c, o, dm):
             if len(script) <= pos or script[pos] != mac(k, ch, dm):
                 alarm('wrong-digest-accepted',
                       'honest %s returned a connection although the peer never sent hmac(key, challenge)' % side)
+    # a recorded session played at a fresh endpoint whose challenge differs from the recorded one
+    if c.get('replayed') and c['replayed']['fresh']:
+        side = c['kind'][-1]
+        if o[side]['out'] == 'returned':
+            alarm('replayed-session-accepted',
+                  'the messages recorded from one party of an earlier handshake were accepted by a fresh %s although '
+                  'its challenge %s differs from the recorded one %s' % (
+                      'listener' if side == 'L' else 'client', c['replayed']['c2'], c['replayed']['c1']))
     # a real shutdown must have produced a real failure (else the fault cases test nothing)
     if c.get('shut_rd') is not None:
         ob = o[c['kind'][-1]]
@@ -532,10 +661,78 @@ def digestmod_from_gen():
     return 'md5'
 
 
-def run_impl(cases, dm, aux=False):
-    slim = [{k: v for k, v in c.items() if k != 'cls'} for c in cases]
-    out = core.run_driver('auth_driver.py', dict(cases=slim, digestmod=dm, aux=aux), timeout=1200)
-    return out['results'], out['aux']
+def run_impl(cases, dm, aux=False, norm=()):
+    """-> (cases, results, aux, norm facts); a two-session replay case comes back as the two ordinary cases it
+    consists of (the honest session, then the recorded script played at a fresh endpoint)"""
+    slim = [{k: v for k, v in c.items() if k not in ('cls', 'replayed')} for c in cases]
+    out = core.run_driver('auth_driver.py', dict(cases=slim, digestmod=dm, aux=aux,
+                                                 norm=[[k.hex(), m.hex()] for k, m in norm]), timeout=1200)
+    flat_c, flat_o = [], []
+    for c, o in zip(cases, out['results']):
+        if 'replay' not in o:
+            flat_c.append(c)
+            flat_o.append(o)
+            continue
+        (c1, o1), (c2, o2) = o['replay']
+        own = c['c1'] if c['kind'] == 'replayL' else c['cc1']
+        c1['cls'] = c.get('cls', 'replay') + '/session-1'
+        c2['cls'] = c.get('cls', 'replay') + '/session-2'
+        c2['replayed'] = dict(fresh=own != c['c2'], c1=own, c2=c['c2'])
+        flat_c += [c1, c2]
+        flat_o += [o1, o2]
+    return flat_c, flat_o, out['aux'], out.get('norm') or []
+
+
+def correspond_norm(res, cases, outs, single_keys, facts, dm):
+    """Lib/AuthKey.norm against the real hmac: H1 on the sampled keys, Coq norm = hmac.py key preparation,
+    real acceptance of a key pair = equality of the Coq norms"""
+    for k, f in facts.items():
+        if f['d_raw'] != f['d_norm']:
+            res.broken.append(dict(kind='assumption', name='H1 (mac k m = mac (norm k) m) is false of the real hmac',
+                                   detail='key %s: hmac(key, m) = %s but hmac(prepared key, m) = %s' % (
+                                       k.hex()[:80], f['d_raw'], f['d_norm'])))
+    pairs = []
+    for c, o in zip(cases, outs):
+        if c['kind'] == 'honest' and not is_fault_case(c) and is_bytes_key(c['kl']) and is_bytes_key(c['kc']) \
+                and c['kl']['hex'] and not c.get('real_urandom'):
+            kl, kc = bytes.fromhex(c['kl']['hex']), bytes.fromhex(c['kc']['hex'])
+            pairs.append((kl, kc, (o['L']['out'], o['C']['out']) == ('returned', 'returned'), c, o))
+    for k in single_keys:
+        pairs.append((k, k, None, None, None))
+    terms = [norm_to_coq(kl, kc, acc, facts) for kl, kc, acc, _, _ in pairs]
+    chunks, cur, size = [], [], 0
+    for t in terms:
+        if cur and (size + len(t) > 1500000 or len(cur) >= 400):
+            chunks.append(cur)
+            cur, size = [], 0
+        cur.append(t)
+        size += len(t)
+    chunks.append(cur)
+    codes, _ = core.coq_eval('C18n', HEADER_NORM, chunks, timeout=300 if res.tier == 'quick' else 1500)
+    for i, code in codes:
+        kl, kc, acc, c, o = pairs[i]
+        if code == 2:
+            res.alarms.append(dict(
+                signature='C18:acceptance-differs-from-normalised-key-equality',
+                what='real Listener.accept x Client with keys of %d and %d bytes: both handed a connection = %s, but '
+                     'norm kl = norm kc (HMAC-%s key preparation evaluated in Coq) is %s: case %s | impl %s' % (
+                         len(kl), len(kc), acc, dm, not acc, brief(c), brief_obs(o)),
+                replay=dict(case=c, impl=strip(o))))
+        else:
+            res.broken.append(dict(kind='correspondence', name='Lib/AuthKey.norm vs hmac.py key preparation',
+                                   detail='keys %s / %s: hmac.py prepares %s / %s' % (
+                                       kl.hex()[:80], kc.hex()[:80], facts[kl]['pynorm'], facts[kc]['pynorm'])))
+    def label(c):
+        if c is None:
+            return 'single-key'
+        cls = c.get('cls', 'corpus')
+        return cls if cls.startswith('norm/') else cls.split('/')[0]
+    hist = Counter('%s:%s' % (label(c), 'not-run' if acc is None else 'accepted' if acc else 'refused')
+                   for kl, kc, acc, c, o in pairs)
+    equal_distinct = sum(1 for kl, kc, acc, c, o in pairs if acc and kl != kc)
+    return dict(norm_cases=len(pairs), norm_keys_checked_for_H1=len(facts),
+                norm_block_size=next(iter(facts.values()))['block'] if facts else None,
+                norm_pairs_accepted_with_distinct_keys=equal_distinct, norm_case_histogram=dict(hist))
 
 
 def correspond(res, n, dm, n_fault):
@@ -544,7 +741,16 @@ def correspond(res, n, dm, n_fault):
     cases = corpus + gen_cases(rng, n, dm, res.tier)
     # channel faults (own generator state: the cases above stay what they were)
     cases += gen_fault_cases(random.Random(res.seed * 7919 + 1818), n_fault, dm)
-    outs, aux = run_impl(cases, dm, aux=True)
+    # key normalisation boundaries, two-session replays (own generator states)
+    cases += gen_norm_cases(random.Random(res.seed * 7919 + 1801), dm)
+    cases += gen_replay_cases(random.Random(res.seed * 7919 + 1802))
+    single_keys = gen_norm_keys(random.Random(res.seed * 7919 + 1803), dm)
+    norm_keys = list(dict.fromkeys(
+        [bytes.fromhex(c[k]['hex']) for c in cases if c['kind'] == 'honest' and not is_fault_case(c)
+         and is_bytes_key(c.get('kl')) and is_bytes_key(c.get('kc')) for k in ('kl', 'kc')] + single_keys))
+    h1_msg = rbytes(random.Random(res.seed * 7919 + 1804), 20)
+    cases, outs, aux, nf = run_impl(cases, dm, aux=True, norm=[(k, h1_msg) for k in norm_keys])
+    facts = dict(zip(norm_keys, nf))
     # monitors first: they do not depend on the model
     seen = set()
     for c, o in zip(cases, outs):
@@ -578,9 +784,12 @@ def correspond(res, n, dm, n_fault):
         else:
             res.broken.append(dict(kind='correspondence', name='Auth model vs real handshake (bytes on the wire)',
                                    detail='case %s | impl %s' % (brief(c), brief_obs(o))))
+    norm_cov = correspond_norm(res, cases, outs, single_keys, facts, dm)
     # facts outside the model
+    refused = dict(session1=['returned', 'returned'], session2='AuthenticationError', fresh_challenge=True)
     expect = dict(process_authkey_is_bytes=True, authstr_pickle_outside_spawn='TypeError',
-                  challenge_prefix_ok=True, challenge_lengths=[20, 20], challenges_differ=True)
+                  challenge_prefix_ok=True, challenge_lengths=[20, 20], challenges_differ=True,
+                  replay_real_urandom_listener=refused, replay_real_urandom_client=refused)
     for k, v in expect.items():
         if aux.get(k) != v:
             res.alarms.append(dict(signature='C18:aux-' + k,
@@ -620,13 +829,20 @@ def correspond(res, n, dm, n_fault):
                          dict(case=json.loads(brief(cases[-1])), impl=json.loads(brief_obs(outs[-1])))],
                 rule='honest listener x client over key-pair classes and challenges; scripted hostile peers '
                      '(random and enumerated digest/challenge/verdict variants); the same over a faulty channel (which '
-                     'send/recv call fails x which error x what the peer answered; injected and real EPIPE); non-trivial = at least one '
-                     'handshake message was sent; distinct by canonical JSON',
+                     'send/recv call fails x which error x what the peer answered; injected and real EPIPE); key pairs around '
+                     'the HMAC key-preparation boundaries (NUL padding within / across the block, long key vs its digest, NUL-only '
+                     'and empty keys); two-session replays (recorded handshake played at a fresh listener / client, challenge '
+                     'fresh / repeated / one bit off); non-trivial = at least one handshake message was sent; distinct by '
+                     'canonical JSON',
                 case_kinds=dict(hist_kind), key_pair_classes=dict(hist_keys), outcome_histogram=dict(hist_out),
                 peer_first_message_classes=dict(hist_first), key_length_histogram=dict(keylens),
                 digest_algorithm_named_by_the_code=dm, aux_observations=aux,
                 fault_cases=len(fcases), failed_calls_histogram=dict(hist_fault),
-                fault_case_outcomes=dict(hist_fault_out))
+                fault_case_outcomes=dict(hist_fault_out),
+                replay_session2_outcomes=dict(Counter(
+                    '%s:%s' % ('/'.join(c['cls'].split('/')[1:3]), o[c['kind'][-1]]['out'])
+                    for c, o in zip(cases, outs) if c.get('replayed'))),
+                **norm_cov)
 
 
 def run(res):
@@ -639,10 +855,16 @@ def run(res):
         n_fault = max(n_fault, 600)
     correspond(res, n, dm, n_fault)
     res.assumptions += [
-        'the MAC is an uninterpreted function in the theorems; HMAC strength (unforgeability, no collisions between '
-        'unrelated keys) is assumed, not proved',
-        'os.urandom returns fresh unpredictable bytes (the generator checks the challenge is os.urandom(MESSAGE_LENGTH); '
-        'the driver checks two real challenges differ)',
+        'the MAC is an uninterpreted function in the theorems. The only properties of HMAC used are explicit hypotheses of '
+        'the theorems that need them: H1 mac k m = mac (norm k) m (key preparation; checked against the real hmac on '
+        'sampled keys each run) and H2 distinct normalised keys do not collide on the challenge used (C18_iff_same_'
+        'normalised_key, C18_iff_same_key); "mac key c_i = mac key c_j -> c_i = c_j" for the two challenges of a replay '
+        '(C18_replay_across_sessions_*iff_challenge_repeats). Unforgeability (an attacker without the key cannot compute '
+        'mac key c) is not modelled: peers are arbitrary message lists / strategies and the theorems say which messages are '
+        'accepted, not who can compute them',
+        'os.urandom returns fresh unpredictable bytes: NOT proved; C18_replay_across_sessions_* state what follows from '
+        'urandom i 20 <> urandom j 20 and that a repeated challenge makes the replay succeed (the generator checks the '
+        'challenge is os.urandom(MESSAGE_LENGTH); the driver checks two real challenges differ and a real replay is refused)',
         'channel = FIFO of whole messages (framing and partial reads are C13); recv_bytes(256) rejecting longer '
         'messages with OSError is exercised on the real Connection but not proved here',
         'channel faults: a send_bytes / recv_bytes call either completes or raises and then transfers nothing (a partial '
@@ -665,8 +887,11 @@ def replay(path):
         return 1
     c = d['replay']['case']
     dm = digestmod_from_gen()
-    outs, _ = run_impl([c], dm)
-    o = outs[0]
+    if c.get('replayed'):
+        # session 2 of a two-session replay: the script is what was recorded in session 1
+        print('(the script of this case = the messages recorded from the other party in an earlier real handshake)')
+    cs, outs, _, _ = run_impl([c], dm)
+    c, o = cs[-1], outs[-1]
     print('case:', brief(c))
     print('recorded implementation:', json.dumps(d['replay'].get('impl'))[:2000])
     print('implementation now:     ', json.dumps(strip(o))[:2000])
@@ -675,4 +900,14 @@ def replay(path):
         print('monitor:', a['signature'], '-', a['what'][:300])
     codes, _ = core.coq_eval('C18r', HEADER, [[to_coq(c, o)]])
     print('model agrees' if not codes else 'model disagrees (code %d)' % codes[0][1])
-    return 1 if (codes or al) else 0
+    ncodes = []
+    if c['kind'] == 'honest' and not is_fault_case(c) and is_bytes_key(c['kl']) and is_bytes_key(c['kc']) \
+            and c['kl']['hex']:
+        kl, kc = bytes.fromhex(c['kl']['hex']), bytes.fromhex(c['kc']['hex'])
+        keys = list(dict.fromkeys([kl, kc]))
+        _, _, _, nf = run_impl([], dm, norm=[(k, b'replay') for k in keys])
+        acc = (o['L']['out'], o['C']['out']) == ('returned', 'returned')
+        ncodes, _ = core.coq_eval('C18rn', HEADER_NORM, [[norm_to_coq(kl, kc, acc, dict(zip(keys, nf)))]])
+        print('both handed a connection: %s; equality of the normalised keys (Coq) %s' % (
+            acc, 'agrees' if not ncodes else 'disagrees (code %d)' % ncodes[0][1]))
+    return 1 if (codes or ncodes or al) else 0
